@@ -1,8 +1,8 @@
 package rules
 
 import (
-	"strings"
 	"go/token"
+	"strings"
 
 	"golang.org/x/tools/go/ssa"
 
